@@ -1,5 +1,13 @@
 import DFV.Lemmas.C01
 import DFV.Lemmas.Rounding
+import DFV.Lemmas.C01Tol
+import DFV.Lemmas.C01Cell
+import DFV.Lemmas.C01Ctor
+import DFV.Lemmas.C01Iter
+import DFV.Lemmas.C01Fl64
+import DFV.Lemmas.C01FlTol
+import DFV.Lemmas.C01FlLin
+import DFV.Lemmas.C01FlProd
 import DFV.Model.C01
 /-!
 # C01 — mesh cells tile the region; index ↔ coordinate maps are mutually inverse
@@ -18,6 +26,7 @@ theorem cells_cover_edges (m : Mesh) (a : Nat) (hn : 0 < m.nAt a) :
   have : (m.nAt a : Rat) ≠ 0 := by exact_mod_cast (Nat.pos_iff_ne_zero.mp hn)
   field_simp
 
+/-- cells have positive size on every axis of a non-degenerate edge -/
 theorem cell_pos (m : Mesh) (a : Nat) (hn : 0 < m.nAt a) (hr : m.region.lo a < m.region.hi a) :
     0 < m.cellAt a := by
   unfold cellAt Region.edge
@@ -407,6 +416,7 @@ list `unflatF n 0, unflatF n 1, …, unflatF n (Π n − 1)` (so cell `k` of the
 first-index-fastest flat index `k`, and its length is the cell count). -/
 theorem indices_refines (ns : List Nat) : indicesCode ns = indicesF ns := indicesCode_eq_indicesF ns
 
+/-- … so `Mesh.indices` has `Π n = len(mesh)` entries -/
 theorem indices_length (ns : List Nat) : (indicesCode ns).length = natProd ns := by
   rw [indices_refines]; simp [indicesF]
 
@@ -598,6 +608,7 @@ theorem iter_refines (m : Mesh) : m.iter = (List.range m.len).map fun k => m.cen
   rw [indices_refines]
   simp [indicesF, List.map_map, Function.comp_def]
 
+/-- `Mesh.__iter__` yields `len(mesh)` points -/
 theorem iter_length (m : Mesh) : m.iter.length = m.len := by
   rw [iter_refines]; simp
 
@@ -736,5 +747,1267 @@ example (pmin c x : Rat) (hc : 0 < c) (k : Int) (h1 : (k : Rat) ≤ (x - pmin) /
     (quotFl Rounding.exact pmin c x).floor = k :=
   point2index_fl Rounding.exact pmin c x hc k (by simpa [Rounding.exact] using h1) (by simpa [Rounding.exact] using h2)
 
+
+/-! ## round 2 of the extension: refusals as equivalences, the tolerance clause, both directions
+of the by-cell clause, constructors from their inputs, iteration order, rounded arithmetic for
+the exact operation sequence -/
+
+/-! ### indices and points: accepted ⇔ well-formed -/
+
+/-- **`index2point` succeeds exactly for indices of the right length with every component in
+`[0, n)`**, and then returns the centres. -/
+theorem index2point_ok_iff (m : Mesh) (idx : List Int) (p : List Rat) :
+    m.index2point idx = .ok p ↔
+      idx.length = m.ndim ∧ (∀ a, a < m.ndim → 0 ≤ idx.getD a 0 ∧ idx.getD a 0 < (m.nAt a : Int)) ∧
+      p = tab m.ndim fun a => m.centreAx a (idx.getD a 0) := index2point_ok_iff' m idx p
+
+/-- **Indices outside the mesh are rejected, and only those**: `index2point` raises exactly when
+the length is wrong or some component is negative or `≥ n` (converse of `index_rejected`). -/
+theorem index2point_rejected_iff (m : Mesh) (idx : List Int) :
+    m.index2point idx = .error .index ↔
+      (idx.length ≠ m.ndim ∨ ∃ a, a < m.ndim ∧ (idx.getD a 0 < 0 ∨ (m.nAt a : Int) ≤ idx.getD a 0)) := by
+  constructor
+  · intro h
+    by_contra hcon
+    rw [not_or, not_not, not_exists] at hcon
+    obtain ⟨hl, hall⟩ := hcon
+    have : m.index2point idx = .ok (tab m.ndim fun a => m.centreAx a (idx.getD a 0)) := by
+      rw [index2point_ok_iff]
+      refine ⟨hl, fun a ha => ?_, rfl⟩
+      have := hall a
+      rw [not_and, not_or, not_lt, not_le] at this
+      exact this ha
+    rw [this] at h; cases h
+  · exact index_rejected m idx
+
+/-- **`point in region` is the inequality with the region's comparison tolerance**:
+`pmin − (atol + rtol·|x|) ≤ x ≤ pmax + (atol + rtol·|x|)` on every axis, `rtol = tolerance_factor`,
+`atol = min(edges)·tolerance_factor` (the expression `Region.__contains__` hands to `np.isclose`). -/
+theorem contains_iff_tolerance (r : Region) (hr : r.Inv) (ht : 0 ≤ r.tol) (p : List Rat) :
+    r.containsPt p = true ↔
+      p.length = r.ndim ∧ ∀ a, a < r.ndim →
+        r.lo a - (r.atol + r.tol * |p.getD a 0|) ≤ p.getD a 0 ∧
+        p.getD a 0 ≤ r.hi a + (r.atol + r.tol * |p.getD a 0|) := by
+  rw [containsPt_iff r hr ht]
+  unfold TolInside band
+  constructor
+  · rintro ⟨h1, h2⟩
+    refine ⟨h1, fun a ha => ?_⟩
+    have := h2 a ha
+    constructor <;> linarith
+  · rintro ⟨h1, h2⟩
+    refine ⟨h1, fun a ha => ?_⟩
+    have := h2 a ha
+    constructor <;> linarith
+
+/-- **`point2index` succeeds exactly for points inside the region up to the tolerance**, and
+then returns `clip(floor((p − pmin)/cell))` per axis. -/
+theorem point2index_ok_iff (m : Mesh) (hm : m.Inv) (ht : 0 ≤ m.region.tol) (p : List Rat) (i : List Nat) :
+    m.point2index p = .ok i ↔
+      TolInside m.region p ∧ i = tab m.ndim fun a => m.indexAx a (p.getD a 0) :=
+  point2index_ok_iff' m hm ht p i
+
+/-- **Points outside the region by more than the tolerance are rejected, and only those**:
+`point2index` raises exactly when the length is wrong or some coordinate lies more than
+`atol + rtol·|x|` below `pmin` or above `pmax`. -/
+theorem point2index_rejected_iff (m : Mesh) (hm : m.Inv) (ht : 0 ≤ m.region.tol) (p : List Rat) :
+    m.point2index p = .error .value ↔
+      (p.length ≠ m.ndim ∨ ∃ a, a < m.ndim ∧
+        (band m.region (p.getD a 0) < m.region.lo a - p.getD a 0 ∨
+         band m.region (p.getD a 0) < p.getD a 0 - m.region.hi a)) := by
+  have hiff := point2index_ok_iff m hm ht p (tab m.ndim fun a => m.indexAx a (p.getD a 0))
+  constructor
+  · intro h
+    by_contra hcon
+    rw [not_or, not_not, not_exists] at hcon
+    obtain ⟨hl, hall⟩ := hcon
+    have : TolInside m.region p := by
+      refine ⟨hl, fun a ha => ?_⟩
+      have := hall a
+      rw [not_and, not_or, not_lt, not_lt] at this
+      exact this ha
+    rw [hiff.mpr ⟨this, rfl⟩] at h; cases h
+  · intro h
+    rcases point2index_cases m p with h1 | ⟨i, h1⟩
+    · exact h1
+    · exfalso
+      obtain ⟨⟨hl, hall⟩, _⟩ := (point2index_ok_iff m hm ht p i).mp h1
+      rcases h with h | ⟨a, ha, h⟩
+      · exact h hl
+      · have := hall a ha
+        rcases h with h | h <;> linarith
+
+/-- `clip` after `floor` is `floor` after moving the point onto the closed edge `[pmin, pmax]`
+(what the clipping in `point2index` is for): for every coordinate, inside or outside. -/
+theorem index_clip_is_clamp (m : Mesh) (hm : m.Inv) (a : Nat) (ha : a < m.ndim) (x : Rat) :
+    m.indexAx a x = m.indexAx a (clampAx m.region a x) :=
+  indexAx_clamp m a x (hm.2.2 a ha) (hm.1.2.2.2.2.2 a ha)
+
+/-- **The tolerance clause**: every point inside the region *up to the region's comparison
+tolerance* is accepted and mapped to an in-range index; the cell of that index contains the
+point moved onto the region (the point itself when it is exactly inside), and the moved point
+is within the tolerance `atol + rtol·|x|` of the original on every axis. -/
+theorem point2index_tol (m : Mesh) (hm : m.Inv) (ht : 0 ≤ m.region.tol) (p : List Rat)
+    (hp : TolInside m.region p) :
+    ∃ i, m.point2index p = .ok i ∧ inRange m.n i = true ∧ inCell m i (clampPt m.region p) ∧
+      (∀ a, a < m.ndim → |(clampPt m.region p).getD a 0 - p.getD a 0| ≤ band m.region (p.getD a 0)) ∧
+      (m.region.containsExact p → clampPt m.region p = p) := by
+  have hlohi : ∀ a, a < m.ndim → m.region.lo a < m.region.hi a := fun a ha => hm.1.2.2.2.2.2 a ha
+  obtain ⟨i, h1, h2, h3⟩ := point_index_contains m hm (clampPt m.region p) (clampPt_exact m.region hm.1 p)
+  have hg : ∀ a, a < m.ndim → (clampPt m.region p).getD a 0 = clampAx m.region a (p.getD a 0) := by
+    intro a ha; unfold clampPt; exact getD_tab _ _ _ _ ha
+  have hi : i = tab m.ndim fun a => m.indexAx a (p.getD a 0) := by
+    have := ((point2index_ok_iff m hm ht _ i).mp h1).2
+    rw [this]
+    apply tab_congr; intro a ha
+    rw [hg a ha, ← index_clip_is_clamp m hm a ha]
+  refine ⟨i, (point2index_ok_iff m hm ht p i).mpr ⟨hp, hi⟩, h2, h3, fun a ha => ?_, fun he => ?_⟩
+  · rw [hg a ha]
+    exact clampAx_near m.region a _ (hlohi a ha) (hp.2 a ha) (band_nonneg m.region hm.1 ht _)
+  · apply list_eq_of_getD _ _ 0
+    · rw [he.1]; simp [clampPt]
+    · intro a ha
+      have ha' : a < m.ndim := by
+        have : a < m.region.ndim := by simpa [clampPt] using ha
+        exact this
+      rw [hg a ha']
+      unfold clampAx
+      rw [min_eq_right (he.2 a ha').2, max_eq_right (he.2 a ha').1]
+
+
+/-! non-vacuity (tolerance clause, on the anisotropic 2-d mesh `exMesh`, cells 1 × 1/4, band
+`atol + rtol·|x| = 5·10⁻¹³ + 10⁻¹²·|x|`): a point `10⁻¹³` below `pmin` is inside up to the tolerance and
+goes to the first cell; a point `10⁻¹¹` below is refused; `exMesh` satisfies the hypotheses -/
+example : exMesh.point2index [-1 - 1/10000000000000, 3/8] = .ok [0, 1] ∧
+    exMesh.point2index [-1 - 1/100000000000, 3/8] = .error .value ∧
+    exMesh.point2index [2 + 1/10000000000000, 1/2 + 1/10000000000000] = .ok [2, 1] := by decide +kernel
+example : (0 : Rat) ≤ exMesh.region.tol := by decide +kernel
+example : TolInside exMesh.region [-1 - 1/10000000000000, 3/8] := by
+  refine ⟨rfl, ?_⟩
+  intro a ha
+  have : a = 0 ∨ a = 1 := by
+    have : a < 2 := ha
+    omega
+  rcases this with rfl | rfl <;> (unfold band; constructor <;> decide +kernel)
+example : clampPt exMesh.region [-1 - 1/10000000000000, 3/8] = [-1, 3/8] := by decide +kernel
+example : exMesh.index2point [2, 1] = .ok [3/2, 3/8] ∧ exMesh.index2point [3, 1] = .error .index ∧
+    exMesh.index2point [2, -1] = .error .index ∧ exMesh.index2point [2] = .error .index := by decide +kernel
+
+/-! ### mesh by cell size: exists exactly when … -/
+
+/-- **A mesh requested by cell size exists exactly when the edges are a whole number of cells.**
+`Mesh(region, cell)` succeeds with mesh `m` if and only if: `cell` has one positive entry per
+axis; no cell exceeds its edge by more than the region's comparison tolerance
+(`cell − edge ≤ atol + rtol·|pmin + cell|`); every edge is within `min(cell)/1000` of a whole
+number `k ≥ 1` of cells; `bc` is valid — and `m` is the mesh on that region whose count on
+every axis is that (unique) whole number.  Both directions; no hypothesis on an intermediate result. -/
+theorem by_cell_ok_iff (r : Region) (hr : r.Inv) (ht : 0 ≤ r.tol) (cell : List Rat) (bc : String) (m : Mesh) :
+    Mesh.mkCell? r cell bc = .ok m ↔
+      (cell.length = r.ndim ∧ (∀ c ∈ cell, 0 < c) ∧
+       (∀ a, a < r.ndim → cell.getD a 0 - r.edge a ≤ band r (r.lo a + cell.getD a 0)) ∧
+       bcOk r.dims bc.toLower = true) ∧
+      m.region = r ∧ m.bc = bc.toLower ∧ m.subs = [] ∧ m.n.length = r.ndim ∧
+      ∀ a, a < r.ndim → 1 ≤ m.nAt a ∧ |r.edge a - (m.nAt a : Rat) * cell.getD a 0| ≤ listMin cell / 1000 := by
+  constructor
+  · intro h
+    have hnear := by_cell_ok_near r hr cell bc m h
+    unfold Mesh.mkCell? at h
+    split at h
+    · cases h
+    next hlen =>
+    split at h
+    · cases h
+    next hany =>
+    split at h
+    · cases h
+    next hcont =>
+    split at h
+    · cases h
+    next hdiv =>
+    split at h
+    · cases h
+    next hcnt =>
+    split at h
+    · cases h
+    next hbc =>
+    injection h with h
+    have hlen : cell.length = r.ndim := not_not.mp hlen
+    have hposall : ∀ c ∈ cell, 0 < c := by
+      intro c hc
+      have h1 : cell.any (fun c => decide (c ≤ 0)) = false := by simpa using hany
+      have := List.any_eq_false.mp h1 c hc
+      simpa using this
+    have hcont' : r.containsPt (tab r.ndim fun a => r.lo a + cell.getD a 0) = true := by simpa using hcont
+    have htol := (containsPt_iff r hr ht _).mp hcont'
+    refine ⟨⟨hlen, hposall, fun a ha => ?_, by simpa using hbc⟩, ?_, ?_, ?_, ?_, fun a ha => (hnear a ha).2⟩
+    · have := (htol.2 a ha).2
+      rw [getD_tab _ _ _ _ ha] at this
+      unfold Region.edge; linarith
+    · rw [← h]
+    · rw [← h]
+    · rw [← h]
+    · rw [← h]; simp
+  · rintro ⟨⟨hlen, hpos, hfit, hbc⟩, h1, h2, h3, h4, h5⟩
+    rw [mkCell_accepts r hr ht cell m.nAt bc hlen hpos hfit h5 hbc]
+    congr 1
+    have hn : m.n = tab r.ndim m.nAt := eq_tab_of_getD m.n r.ndim m.nAt 0 h4 (fun _ _ => rfl)
+    cases m
+    simp only at h1 h2 h3 hn
+    subst h1 h2 h3
+    rw [← hn]
+
+/-- … in particular **a cell larger than its edge is refused** (by more than the comparison
+tolerance; `edge = n·cell` with `n ≥ 1` is impossible then, and the constructor says so before
+looking at divisibility). -/
+theorem by_cell_rejects_large (r : Region) (hr : r.Inv) (ht : 0 ≤ r.tol) (cell : List Rat) (bc : String)
+    (a : Nat) (ha : a < r.ndim) (hbig : band r (r.lo a + cell.getD a 0) < cell.getD a 0 - r.edge a) :
+    ∃ e, Mesh.mkCell? r cell bc = .error e := by
+  cases h : Mesh.mkCell? r cell bc with
+  | error e => exact ⟨e, rfl⟩
+  | ok m =>
+    exfalso
+    have := ((by_cell_ok_iff r hr ht cell bc m).mp h).1.2.2.1 a ha
+    linarith
+
+/-- … and the count is the only whole number that close: two meshes accepted for the same cell
+size are the same mesh, whatever `k` a caller had in mind. -/
+theorem by_cell_count_unique (r : Region) (hr : r.Inv) (cell : List Rat) (bc : String) (m : Mesh)
+    (h : Mesh.mkCell? r cell bc = .ok m) (a : Nat) (ha : a < r.ndim) (k : Int)
+    (hk : |r.edge a - (k : Rat) * cell.getD a 0| ≤ listMin cell / 1000) : (m.nAt a : Int) = k := by
+  have hnear := (by_cell_ok_near r hr cell bc m h a ha).2.2
+  have hlen : cell.length = r.ndim := by
+    unfold Mesh.mkCell? at h
+    split at h
+    · cases h
+    · rename_i hl; exact not_not.mp hl
+  have hposall : ∀ c ∈ cell, 0 < c := by
+    unfold Mesh.mkCell? at h
+    rw [if_neg (not_not.mpr hlen)] at h
+    split at h
+    · cases h
+    · rename_i hany
+      intro c hc
+      have h1 : cell.any (fun c => decide (c ≤ 0)) = false := by simpa using hany
+      have := List.any_eq_false.mp h1 c hc
+      simpa using this
+  have hmem := getD_mem_of_lt cell a 0 (by rw [hlen]; exact ha)
+  have hc := hposall _ hmem
+  have := listMin_le_mem cell _ hmem
+  exact multiple_unique (r.edge a) (cell.getD a 0) (listMin cell / 1000) hc (by linarith) _ _
+    (by exact_mod_cast hnear) hk
+
+/-! non-vacuity (by-cell clause, region of `exMesh`: edges 3 × 1/2): the commensurate cell `(1, 1/4)` gives
+`exMesh`; a cell off by 5·10⁻⁵ (0.15 ‰ of the smallest cell over three cells: inside the 1 ‰ band) still
+gives `n = (3, 2)`; off by 2·10⁻⁴ it is refused; the cell `(3 + 10⁻⁴, 1/2)` divides the edges within the band
+(`k = 1`) but exceeds the edge by more than the comparison tolerance: refused (`by_cell_rejects_large`) -/
+example : Mesh.mkCell? exMesh.region [1, 1/4] = .ok exMesh := by decide +kernel
+example : (Mesh.mkCell? exMesh.region [1 + 1/20000, 1/4]).toOption.map (·.n) = some [3, 2] ∧
+    (Mesh.mkCell? exMesh.region [1 + 1/5000, 1/4]).toOption = none ∧
+    (Mesh.mkCell? exMesh.region [3 + 1/10000, 1/2]).toOption = none ∧
+    (Mesh.mkCell? exMesh.region [3, 1/2]).toOption.map (·.n) = some [1, 1] := by decide +kernel
+example : |exMesh.region.edge 0 - (1 : Nat) * (3 + 1/10000 : Rat)| ≤ listMin [3 + 1/10000, 1/2] / 1000 ∧
+    band exMesh.region (exMesh.region.lo 0 + (3 + 1/10000)) < (3 + 1/10000) - exMesh.region.edge 0 := by
+  unfold band; constructor <;> decide +kernel
+
+/-! ### constructors: accepted ⇔ well-formed inputs; what they establish -/
+
+/-- **`Region(p1, p2, dims, units)` exists exactly when** the two corner lists have the same
+non-zero length and differ in every coordinate (no zero edge), and explicit `dims` / `units`
+have that length (`dims` without repetition). -/
+theorem region_mk_ok_iff (p1 p2 : List Rat) (dims units : Option (List String)) (tol : Rat) :
+    (∃ r, Region.mk? p1 p2 dims units tol = .ok r) ↔
+      p1.length = p2.length ∧ p1.length ≠ 0 ∧ DimsArgOk p1.length dims ∧ UnitsArgOk p1.length units ∧
+      ∀ a, a < p1.length → p1.getD a 0 ≠ p2.getD a 0 := region_mk_ok_iff' p1 p2 dims units tol
+
+/-- **Either corner order**: the region built from `p1`, `p2` has `pmin = min(p1, p2)`,
+`pmax = max(p1, p2)` componentwise, strictly ordered, one name and one unit per axis, no
+repeated name - i.e. it satisfies the invariant `Region.Inv` every other theorem assumes. -/
+theorem region_mk_normalises (p1 p2 : List Rat) (dims units : Option (List String)) (tol : Rat) (r : Region)
+    (h : Region.mk? p1 p2 dims units tol = .ok r) :
+    r.Inv ∧ r.ndim = p1.length ∧ r.tol = tol ∧
+    ∀ a, a < r.ndim → r.lo a = min (p1.getD a 0) (p2.getD a 0) ∧ r.hi a = max (p1.getD a 0) (p2.getD a 0) ∧
+      r.lo a < r.hi a ∧ r.edge a = |p1.getD a 0 - p2.getD a 0| := by
+  obtain ⟨_, _, hne, hinv, hnd, htol, hlh, _⟩ := region_mk_spec p1 p2 dims units tol r h
+  refine ⟨hinv, hnd, htol, fun a ha => ?_⟩
+  rw [hnd] at ha
+  obtain ⟨e1, e2⟩ := hlh a ha
+  refine ⟨e1, e2, hinv.2.2.2.2.2 a (by unfold Region.ndim at hnd; rw [hnd]; exact ha), ?_⟩
+  unfold Region.edge
+  rw [e1, e2]
+  rcases le_total (p1.getD a 0) (p2.getD a 0) with hle | hle
+  · rw [min_eq_left hle, max_eq_right hle, abs_of_nonpos (by linarith)]; ring
+  · rw [min_eq_right hle, max_eq_left hle, abs_of_nonneg (by linarith)]
+
+/-- **`Mesh(region, n)` exists exactly when** `n` has one entry `≥ 1` per axis and `bc` is valid;
+the mesh then stores exactly `region` and `n`. -/
+theorem mesh_mk_ok_iff (r : Region) (n : List Nat) (bc : String) (m : Mesh) :
+    Mesh.mkN? r n bc = .ok m ↔
+      n.length = r.ndim ∧ (∀ a, a < r.ndim → 1 ≤ n.getD a 0) ∧ bcOk r.dims bc.toLower = true ∧
+      m = { region := r, n := n, bc := bc.toLower, subs := [] } := mkN_ok_iff' r n bc m
+
+/-- **From the inputs to the invariant**: whatever corners (in either order) and counts the two
+constructors accept, the resulting mesh satisfies `Mesh.Inv` - so every theorem of this file
+that assumes `m.Inv` holds for every mesh a user can build, with hypotheses on the inputs only. -/
+theorem mesh_inv_from_inputs (p1 p2 : List Rat) (dims units : Option (List String)) (tol : Rat)
+    (n : List Nat) (bc : String) (r : Region) (m : Mesh)
+    (hr : Region.mk? p1 p2 dims units tol = .ok r) (hm : Mesh.mkN? r n bc = .ok m) :
+    m.Inv ∧ m.region = r ∧ m.n = n :=
+  mkN_inv r (region_mk_normalises p1 p2 dims units tol r hr).1 n bc m hm
+
+/-- … and likewise for a mesh requested by cell size -/
+theorem mesh_inv_from_cell (r : Region) (hr : r.Inv) (cell : List Rat) (bc : String) (m : Mesh)
+    (h : Mesh.mkCell? r cell bc = .ok m) : m.Inv := by
+  have hnear := by_cell_ok_near r hr cell bc m h
+  have hreg : m.region = r := by
+    unfold Mesh.mkCell? at h
+    split at h; · cases h
+    split at h; · cases h
+    split at h; · cases h
+    split at h; · cases h
+    split at h; · cases h
+    split at h; · cases h
+    injection h with h; rw [← h]
+  have hlen : m.n.length = r.ndim := by
+    unfold Mesh.mkCell? at h
+    split at h; · cases h
+    split at h; · cases h
+    split at h; · cases h
+    split at h; · cases h
+    split at h; · cases h
+    split at h; · cases h
+    injection h with h; rw [← h]; simp
+  refine ⟨by rw [hreg]; exact hr, by rw [hreg]; exact hlen, fun a ha => ?_⟩
+  have ha' : a < r.ndim := by unfold Mesh.ndim at ha; rw [hreg] at ha; exact ha
+  exact (hnear a ha').2.1
+
+/-- **End to end, from the inputs**: for all corner lists of equal non-zero length that differ in
+every coordinate (either order) and all counts `≥ 1`, the constructors succeed, and on the mesh
+they return: every in-range index goes to its centre and back to itself; every point of the
+closed box is mapped to an in-range index whose cell contains it; the cells fill the volume. -/
+theorem tiling_from_inputs (p1 p2 : List Rat) (n : List Nat)
+    (hl : p1.length = p2.length) (h0 : p1.length ≠ 0) (hne : ∀ a, a < p1.length → p1.getD a 0 ≠ p2.getD a 0)
+    (hn : n.length = p1.length) (hpos : ∀ a, a < p1.length → 1 ≤ n.getD a 0) :
+    ∃ r m, Region.mk? p1 p2 none none = .ok r ∧ Mesh.mkN? r n = .ok m ∧ m.n = n ∧
+      (∀ a, a < p1.length → r.lo a = min (p1.getD a 0) (p2.getD a 0) ∧ r.hi a = max (p1.getD a 0) (p2.getD a 0)) ∧
+      (∀ i, inRange n i = true → m.point2index (m.centre i) = .ok i) ∧
+      (∀ p, r.containsExact p → ∃ i, m.point2index p = .ok i ∧ inRange n i = true ∧ inCell m i p) ∧
+      (m.len : Rat) * m.dV = r.volume := by
+  obtain ⟨r, hr⟩ := (region_mk_ok_iff p1 p2 none none (1/1000000000000)).mpr
+    ⟨hl, h0, (fun d e => by cases e), (fun u e => by cases e), hne⟩
+  obtain ⟨hinv, hnd, _, hlh⟩ := region_mk_normalises p1 p2 none none _ r hr
+  have hm : Mesh.mkN? r n = .ok { region := r, n := n, bc := "".toLower, subs := [] } := by
+    rw [mesh_mk_ok_iff]
+    have hbc : bcOk r.dims "".toLower = true := by
+      have : "".toLower = "" := by
+        unfold String.toLower
+        exact String.map_eq_empty.mpr rfl
+      rw [this]; simp [bcOk]
+    refine ⟨by rw [hnd]; exact hn, fun a ha => hpos a (by rw [← hnd]; exact ha), hbc, rfl⟩
+  obtain ⟨minv, mreg, mn⟩ := mkN_inv r hinv n "" _ hm
+  refine ⟨r, _, hr, hm, rfl, fun a ha => ⟨(hlh a (by rw [hnd]; exact ha)).1, (hlh a (by rw [hnd]; exact ha)).2.1⟩,
+    fun i hi => roundtrip _ minv i hi, fun p hp => point_index_contains _ minv p hp, volume_tiles _ minv⟩
+
+/-! ### volume -/
+
+/-- the volume of the region spanned by `p1`, `p2` is `Π |p1 − p2|`: the same for either corner order -/
+theorem volume_closed_form (p1 p2 : List Rat) (dims units : Option (List String)) (tol : Rat) (r : Region)
+    (h : Region.mk? p1 p2 dims units tol = .ok r) :
+    r.volume = ratProd (tab p1.length fun a => |p1.getD a 0 - p2.getD a 0|) ∧ 0 < r.volume := by
+  obtain ⟨hinv, hnd, _, hlh⟩ := region_mk_normalises p1 p2 dims units tol r h
+  unfold Region.volume Region.edges
+  constructor
+  · rw [hnd]
+    congr 1
+    apply tab_congr; intro a ha
+    exact (hlh a (by rw [hnd]; exact ha)).2.2.2
+  · apply ratProd_pos
+    intro x hx
+    obtain ⟨a, ha, e⟩ := mem_tab _ _ _ hx
+    rw [e]
+    have := hinv.2.2.2.2.2 a ha
+    unfold Region.edge; linarith
+
+/-- **Integer corner points** (repo fix 0ec4b24a: `math.prod` of Python integers): the volume of
+a region whose corners are whole numbers is the *integer* product of its integer edge lengths,
+exactly - no rounding and no wrap-around at any size. -/
+theorem volume_int (r : Region) (zlo zhi : Nat → Int)
+    (h : ∀ a, a < r.ndim → r.lo a = (zlo a : Rat) ∧ r.hi a = (zhi a : Rat)) :
+    r.volume = ((intProd (tab r.ndim fun a => zhi a - zlo a) : Int) : Rat) := by
+  rw [← ratProd_cast_int]
+  unfold Region.volume Region.edges tab
+  rw [List.map_map]
+  congr 1
+  apply List.map_congr_left
+  intro a ha
+  obtain ⟨e1, e2⟩ := h a (List.mem_range.mp ha)
+  simp only [Function.comp, Region.edge, e1, e2]
+  push_cast; ring
+
+/-- cells have positive volume, and `len(mesh)` of them make up the region -/
+theorem dV_pos (m : Mesh) (hm : m.Inv) : 0 < m.dV ∧ m.dV = m.region.volume / (m.len : Rat) := by
+  have hlen : 0 < m.len := by
+    unfold len
+    apply natProd_pos
+    intro k hk
+    obtain ⟨a, ha, e⟩ := List.getElem_of_mem hk
+    have := hm.2.2 a (by unfold Mesh.ndim; rw [← hm.2.1]; exact ha)
+    unfold nAt at this
+    rw [List.getD_eq_getElem?_getD, List.getElem?_eq_getElem ha, Option.getD_some, e] at this
+    exact this
+  have hL : (0 : Rat) < (m.len : Rat) := by exact_mod_cast hlen
+  have hv := volume_tiles m hm
+  constructor
+  · unfold dV
+    apply ratProd_pos
+    intro x hx
+    obtain ⟨a, ha, e⟩ := mem_tab _ _ _ hx
+    rw [e]
+    exact cell_pos m a (hm.2.2 a ha) (hm.1.2.2.2.2.2 a ha)
+  · rw [← hv]; field_simp
+
+
+/-! non-vacuity (constructors from their inputs): corners given in mixed order produce the region of
+`exMesh`; the hypotheses of `tiling_from_inputs` hold for them -/
+example : Region.mk? [2, 0] [-1, 1/2] none none = .ok exMesh.region ∧
+    Region.mk? [-1, 1/2] [2, 0] none none = .ok exMesh.region ∧
+    Mesh.mkN? exMesh.region [3, 2] = .ok exMesh := by decide +kernel
+example : ∀ a, a < [(2 : Rat), 0].length → [(2 : Rat), 0].getD a 0 ≠ [(-1 : Rat), 1/2].getD a 0 := by
+  intro a ha
+  have : a = 0 ∨ a = 1 := by
+    have : a < 2 := ha
+    omega
+  rcases this with rfl | rfl <;> decide +kernel
+/-- an integer-cornered region whose volume exceeds 2^63: exactly the integer product -/
+example : (Region.mk [-3000000000, 0, 5] [4000000000, 6000000000, 1000000005] ["x", "y", "z"] ["m", "m", "m"] (1/1000000000000)).volume
+    = ((7000000000 * 6000000000 * 1000000000 : Int) : Rat) := by decide +kernel
+
+/-! ### iteration order for every number of dimensions -/
+
+/-- **`Mesh.indices` lists exactly the in-range indices**: a multi-index occurs in it if and
+only if it has one component in `[0, n)` per axis (any number of dimensions) … -/
+theorem indices_complete (ns i : List Nat) : i ∈ indicesCode ns ↔ inRange ns i = true := by
+  rw [indices_refines]; exact mem_indicesF_iff ns i
+
+/-- … **each exactly once** … -/
+theorem indices_nodup (ns : List Nat) : (indicesCode ns).Nodup := by
+  rw [indices_refines]; exact indicesF_nodup ns
+
+/-- … and **in odometer order, first dimension fastest**: the entry after `i` is `i` with its
+first component advanced by one, or - when that wheel is at `n₀ − 1` - reset to 0 with the
+carry passed to the next dimension (`succF`), for every number of dimensions. -/
+theorem indices_odometer (ns : List Nat) (k : Nat) (hk : k + 1 < natProd ns) :
+    (indicesCode ns).getD (k + 1) [] = succF ns ((indicesCode ns).getD k []) := by
+  have hpos : ∀ n ∈ ns, 0 < n := (natProd_pos_iff ns).mp (by omega)
+  rw [indices_refines]
+  unfold indicesF
+  rw [List.getD_eq_getElem?_getD, List.getD_eq_getElem?_getD, List.getElem?_map, List.getElem?_map,
+    List.getElem?_range hk, List.getElem?_range (by omega : k < natProd ns)]
+  simp only [Option.map_some, Option.getD_some]
+  exact unflatF_succ ns hpos k
+
+/-- the first entry of the iteration is the origin cell -/
+theorem indices_first (ns : List Nat) (h : 0 < natProd ns) :
+    (indicesCode ns).getD 0 [] = List.replicate ns.length 0 := by
+  rw [indices_refines]
+  unfold indicesF
+  rw [List.getD_eq_getElem?_getD, List.getElem?_map, List.getElem?_range h]
+  simp only [Option.map_some, Option.getD_some]
+  clear h
+  induction ns with
+  | nil => rfl
+  | cons n ns ih => simp [unflatF, List.replicate_succ, ih]
+
+/-- `Mesh.__iter__` is `map(self.index2point, self.indices)`: its `k`-th point is what
+`index2point` returns for the `k`-th index (which it accepts) -/
+theorem iter_is_index2point (m : Mesh) (hm : m.Inv) (k : Nat) (hk : k < m.len) :
+    m.index2point (((indicesCode m.n).getD k []).map Int.ofNat) = .ok (m.iter.getD k []) := by
+  have hlen : k < (indicesCode m.n).length := by rw [indices_length]; exact hk
+  have hmem : (indicesCode m.n).getD k [] ∈ indicesCode m.n := getD_mem_of_lt _ _ _ hlen
+  rw [index2point_centre m hm _ ((indices_complete _ _).mp hmem)]
+  congr 1
+  unfold iter
+  rw [List.getD_eq_getElem?_getD, List.getD_eq_getElem?_getD, List.getElem?_map]
+  rw [List.getElem?_eq_getElem hlen]
+  rfl
+
+/-! ### coordinate field, code-shaped -/
+
+/-- **`coordinate_field` as the code builds it** - component `i` is the list of centres of
+axis `i`, reshaped to `(1, …, n_i, …, 1)` and broadcast over the other axes - holds in every
+cell `idx` the centre `pmin + (idx + ½)·cell` of that cell (any number of dimensions). -/
+theorem coord_field_refines (m : Mesh) (hm : m.Inv) (idx : List Nat) (hi : inRange m.n idx = true) :
+    m.coordFieldCode idx = m.coordField idx ∧ m.coordFieldCode idx = m.centre idx := by
+  have h1 : m.coordFieldCode idx = m.coordField idx := by
+    unfold coordFieldCode coordField
+    apply tab_congr; intro a ha
+    rw [coord_position m idx a ha (inRange_getD m.n idx hi a (by rw [hm.2.1]; exact ha))]
+  exact ⟨h1, by rw [h1]; exact coord_field_centre m hm idx hi⟩
+
+/-! non-vacuity (iteration order, coordinate field): a 2-d and a 4-d shape -/
+example : indicesCode [3, 2] = [[0, 0], [1, 0], [2, 0], [0, 1], [1, 1], [2, 1]] ∧
+    succF [3, 2] [2, 0] = [0, 1] ∧ succF [3, 2] [1, 1] = [2, 1] := by decide
+example : (indicesCode [2, 1, 3, 2]).length = 12 ∧ (indicesCode [2, 1, 3, 2]).getD 7 [] = [1, 0, 0, 1] ∧
+    succF [2, 1, 3, 2] [1, 0, 2, 0] = [0, 0, 0, 1] := by decide
+
+def exMesh4 : Mesh :=
+  { region := { pmin := [0, -1, 1/2, 10], pmax := [2, 0, 2, 11], dims := ["x0", "x1", "x2", "x3"],
+                units := ["m", "m", "m", "m"], tol := 1/1000000000000 },
+    n := [2, 1, 3, 2], bc := "", subs := [] }
+
+example : exMesh4.Inv := mesh_inv_of_invB _ (by decide +kernel)
+example : exMesh4.coordShape 2 = [1, 1, 3, 1] ∧ coordBcast (exMesh4.coordShape 2) [1, 0, 2, 1] = [0, 0, 2, 0] ∧
+    exMesh4.coordFieldCode [1, 0, 2, 1] = [3/2, -1/2, 7/4, 43/4] ∧
+    exMesh4.centre [1, 0, 2, 1] = [3/2, -1/2, 7/4, 43/4] ∧
+    exMesh4.point2index [3/2, -1/2, 7/4, 43/4] = .ok [1, 0, 2, 1] := by decide +kernel
+example : exMesh.coordFieldCode [2, 1] = [3/2, 3/8] := by decide +kernel
+
+/-! ### rounded arithmetic for the exact operation sequence of the code
+
+`Mesh.cell = fl(fl(pmax − pmin)/n)` is itself a rounded quantity; `point2index` floors
+`fl(fl(x − pmin)/cell)` and clips; `index2point` returns `fl(pmin + fl((i + ½)·cell))`;
+`Region.__contains__` compares exactly and falls back on `np.isclose`.  `Mesh.point2indexFl`,
+`Mesh.index2pointFl` (Model/C01.lean) follow this sequence with an arbitrary rounding function;
+the theorems take a `Rounding` (standard model, relative error `u`), `Rounding.binary64`
+(`u = 2^-53`, the function the driver executes) is one. -/
+
+/-- **Error of the quotient that `point2index` floors**, all four roundings included:
+`|fl(fl(x − pmin)/fl(fl(pmax − pmin)/n)) − (x − pmin)/cell| ≤ 5u·|(x − pmin)/cell|`, for every
+coordinate `x` (explicit constant `c = 5`, valid for every `u ≤ 1/16`). -/
+theorem quotient_fl_err (R : Rounding) (m : Mesh) (hm : m.Inv) (a : Nat) (ha : a < m.ndim) (x : Rat) :
+    |m.quotAxFl R.fl a x - (x - m.region.lo a) / m.cellAt a| ≤ 5 * R.u * |(x - m.region.lo a) / m.cellAt a| :=
+  (quotAxFl_err R m a (hm.2.2 a ha) (hm.1.2.2.2.2.2 a ha) x).2
+
+/-- **Away from the faces the rounded computation finds the cell that contains the point**
+(list level, every dimension): for every point of the closed region whose distance from every
+*interior* cell face `pmin + j·cell` (`0 < j < n`) exceeds `5u·(x − pmin)` on every axis - relative
+distance more than `5u` - `point2index` with every operation rounded returns exactly what exact
+arithmetic returns (the index of the cell that contains the point, `point_index_contains`).
+The faces of the region itself need no margin.  Requires only `5u·n < 1`. -/
+theorem point2index_fl_exact (R : Rounding) (m : Mesh) (hm : m.Inv) (p : List Rat)
+    (hp : m.region.containsExact p)
+    (hs : ∀ a, a < m.ndim → 5 * R.u * (m.nAt a : Rat) < 1)
+    (haway : ∀ a, a < m.ndim → ∀ j : Nat, 0 < j → j < m.nAt a →
+      5 * R.u * (p.getD a 0 - m.region.lo a) < |p.getD a 0 - (m.region.lo a + (j : Rat) * m.cellAt a)|) :
+    m.point2indexFl R.fl p = m.point2index p := by
+  unfold point2indexFl point2index
+  have h1 : p.length = m.ndim := hp.1
+  rw [if_neg (not_not.mpr h1), if_neg (not_not.mpr h1), containsPtFl_of_exact R.fl _ _ hp,
+    containsPt_of_exact _ _ hp]
+  simp only [Bool.not_true, Bool.false_eq_true, if_false]
+  congr 1
+  apply tab_congr; intro a ha
+  have hn := hm.2.2 a ha
+  have hr := hm.1.2.2.2.2.2 a ha
+  apply indexAxFl_eq R m a hn hr _ (hp.2 a ha).1 (hp.2 a ha).2 (hs a ha)
+  intro j hj0 hjn
+  rw [away_coord m a (cell_pos m a hn hr)]
+  exact haway a ha j hj0 hjn
+
+/-- **Within the band, one of the two adjacent cells** (list level): for *every* point of the
+closed region the rounded `point2index` succeeds with an in-range index, and on each axis that
+index is the exact one, or the point lies within `5u·(x − pmin)` of an interior face `j` and the
+rounded and the exact index are the two cells `j − 1`, `j` sharing that face.  Requires `10u·n < 1`. -/
+theorem point2index_fl_band (R : Rounding) (m : Mesh) (hm : m.Inv) (p : List Rat)
+    (hp : m.region.containsExact p)
+    (hs : ∀ a, a < m.ndim → 10 * R.u * (m.nAt a : Rat) < 1) :
+    ∃ i k, m.point2indexFl R.fl p = .ok i ∧ m.point2index p = .ok k ∧ inRange m.n i = true ∧
+      inRange m.n k = true ∧ inCell m k p ∧
+      ∀ a, a < m.ndim → i.getD a 0 = k.getD a 0 ∨
+        ∃ j : Nat, 0 < j ∧ j < m.nAt a ∧
+          |p.getD a 0 - (m.region.lo a + (j : Rat) * m.cellAt a)| ≤ 5 * R.u * (p.getD a 0 - m.region.lo a) ∧
+          (i.getD a 0 = j - 1 ∨ i.getD a 0 = j) ∧ (k.getD a 0 = j - 1 ∨ k.getD a 0 = j) := by
+  obtain ⟨k, hk1, hk2, hk3⟩ := point_index_contains m hm p hp
+  have hl1 : p.length = m.ndim := hp.1
+  have hkeq : k = tab m.ndim fun a => m.indexAx a (p.getD a 0) := by
+    unfold point2index at hk1
+    rw [if_neg (not_not.mpr hl1), containsPt_of_exact _ _ hp] at hk1
+    simp only [Bool.not_true, Bool.false_eq_true, if_false] at hk1
+    injection hk1 with hk1; exact hk1.symm
+  refine ⟨tab m.ndim fun a => m.indexAxFl R.fl a (p.getD a 0), k, ?_, hk1, ?_, hk2, hk3, ?_⟩
+  · unfold point2indexFl
+    rw [if_neg (not_not.mpr hl1), containsPtFl_of_exact R.fl _ _ hp]
+    simp
+  · apply inRange_of_getD
+    · rw [tab_length, hm.2.1]; rfl
+    · intro a ha
+      have ha' : a < m.ndim := by rw [hm.2.1] at ha; exact ha
+      rw [getD_tab _ _ _ _ ha']
+      exact indexAxFl_lt m a R.fl (hm.2.2 a ha') _
+  · intro a ha
+    have hn := hm.2.2 a ha
+    have hr := hm.1.2.2.2.2.2 a ha
+    have hc := cell_pos m a hn hr
+    rw [getD_tab _ _ _ _ ha, hkeq, getD_tab _ _ _ _ ha]
+    rcases indexAxFl_band R m a hn hr _ (hp.2 a ha).1 (hp.2 a ha).2 (hs a ha) with h | ⟨j, h1, h2, h3, h4, h5⟩
+    · exact Or.inl h
+    · refine Or.inr ⟨j, h1, h2, ?_, h4, h5⟩
+      have e : (p.getD a 0 - m.region.lo a) / m.cellAt a - (j : Rat)
+          = (p.getD a 0 - (m.region.lo a + (j : Rat) * m.cellAt a)) / m.cellAt a := by
+        field_simp; ring
+      rw [e, abs_div, abs_of_pos hc, ← mul_div_assoc, div_le_div_iff_of_pos_right hc] at h3
+      exact h3
+
+/-- **index → centre → index with every operation rounded, for the operation sequence of the code**
+(`cell = fl(fl(pmax − pmin)/n)`, `centre = fl(pmin + fl((i + ½)·cell))`, quotient
+`fl(fl(centre − pmin)/cell)`, floor, clip): the identity on every cell when
+`12u·(|pmin|/cell + n) < 1`. -/
+theorem roundtrip_fl_axis (R : Rounding) (m : Mesh) (a : Nat) (hn : 0 < m.nAt a) (hr : m.region.lo a < m.region.hi a) (i : Nat) (hi : i < m.nAt a)
+    (hs : 12 * R.u * (|m.region.lo a| / m.cellAt a + (m.nAt a : Rat)) < 1) :
+    m.indexAxFl R.fl a (m.centreAxFl R.fl a (i : Int)) = i := by
+  have hN : (0 : Rat) < (m.nAt a : Rat) := by exact_mod_cast hn
+  have hc : 0 < m.cellAt a := by
+    unfold cellAt Region.edge; exact div_pos (by linarith) hN
+  have hu := R.u_nonneg
+  have hu16 := R.u_small
+  have hcc := cellAtFl_err R m a hn hr
+  set c := m.cellAt a with hcdef
+  set c' := m.cellAtFl R.fl a with hc'def
+  have huu : R.u * R.u ≤ 1 / 16 * R.u := by nlinarith
+  rw [abs_le] at hcc
+  have hc1 : 223 / 256 * c ≤ c' := by nlinarith
+  have hc' : 0 < c' := by linarith
+  have hi' : (i : Rat) + 1 ≤ (m.nAt a : Rat) := by exact_mod_cast (by omega : i + 1 ≤ m.nAt a)
+  -- hypothesis of `roundtrip_fl` in terms of c'
+  have hL0 : 0 ≤ |m.region.lo a| / c := div_nonneg (abs_nonneg _) hc.le
+  have hL : |m.region.lo a| / c' ≤ 6 / 5 * (|m.region.lo a| / c) := by
+    rw [div_le_iff₀ hc']
+    have e : |m.region.lo a| / c * c = |m.region.lo a| := by field_simp
+    have := mul_le_mul_of_nonneg_left hc1 hL0
+    nlinarith
+  have hsmall : 10 * R.u * (|m.region.lo a| / c' + ((i : Rat) + 1 / 2)) < 1 := by
+    have h1 : 10 * R.u * (|m.region.lo a| / c' + ((i : Rat) + 1 / 2))
+        ≤ 10 * R.u * (6 / 5 * (|m.region.lo a| / c) + (m.nAt a : Rat)) :=
+      mul_le_mul_of_nonneg_left (by linarith) (by positivity)
+    have h2 : 0 ≤ R.u * (m.nAt a : Rat) := by positivity
+    nlinarith
+  have key := roundtrip_fl R (m.region.lo a) c' hc' i hsmall
+  unfold indexAxFl quotAxFl centreAxFl
+  rw [← hc'def]
+  unfold quotFl centreFl at key
+  have e : (((i : Int) : Rat)) = (i : Rat) := by push_cast; rfl
+  rw [e, key]
+  unfold clipInt
+  have h1 : ¬ ((i : Int) < 0) := by omega
+  have h2 : ¬ ((m.nAt a : Int) - 1 < (i : Int)) := by omega
+  simp [h1, h2]
+
+
+/-- **Round trip with every operation rounded, list level, through the containment test**:
+`point2index(index2point(i)) = i` for every in-range index of every mesh (any dimension, either
+boundary cell included) with `12u·(|pmin|/cell + n) < 1` on every axis, where both maps, the cell
+size and the containment test are computed in rounded arithmetic exactly as the code does.  No
+hypothesis on an intermediate result: the computed centre is shown to lie strictly inside the
+region, so the test accepts it by exact comparison. -/
+theorem roundtrip_fl_code (R : Rounding) (m : Mesh) (hm : m.Inv) (i : List Nat) (hi : inRange m.n i = true)
+    (hs : ∀ a, a < m.ndim → 12 * R.u * (|m.region.lo a| / m.cellAt a + (m.nAt a : Rat)) < 1) :
+    ∃ p, m.index2pointFl R.fl (i.map Int.ofNat) = .ok p ∧ m.region.containsExact p ∧
+      m.point2indexFl R.fl p = .ok i := by
+  obtain ⟨hr, hn, hpos⟩ := hm
+  have hlen : i.length = m.ndim := by rw [inRange_length m.n i hi, hn]; rfl
+  have hin : ∀ a, a < m.ndim → i.getD a 0 < m.nAt a := fun a ha =>
+    inRange_getD m.n i hi a (by rw [hn]; exact ha)
+  have hlohi : ∀ a, a < m.ndim → m.region.lo a < m.region.hi a := fun a ha => hr.2.2.2.2.2 a ha
+  have hg : ∀ a, a < m.ndim → (i.map Int.ofNat).getD a 0 = ((i.getD a 0 : Nat) : Int) := by
+    intro a ha
+    have : a < i.length := by rw [hlen]; exact ha
+    simp [List.getD_eq_getElem?_getD, List.getElem?_map, List.getElem?_eq_getElem this]
+  have hp : m.index2pointFl R.fl (i.map Int.ofNat)
+      = .ok (tab m.ndim fun a => m.centreAxFl R.fl a ((i.getD a 0 : Nat) : Int)) := by
+    unfold index2pointFl
+    rw [if_neg (by simp [hlen])]
+    have : allLt m.ndim (fun a => decide (0 ≤ (i.map Int.ofNat).getD a 0) && decide ((i.map Int.ofNat).getD a 0 < (m.nAt a : Int))) = true := by
+      rw [allLt_iff]; intro a ha
+      rw [hg a ha]
+      have h2 : ((i.getD a 0 : Nat) : Int) < (m.nAt a : Int) := by exact_mod_cast hin a ha
+      have h1 : (0 : Int) ≤ ((i.getD a 0 : Nat) : Int) := Int.natCast_nonneg _
+      rw [decide_eq_true h1, decide_eq_true h2]; rfl
+    rw [this]
+    simp only [Bool.not_true, Bool.false_eq_true, if_false]
+    congr 1
+    apply tab_congr; intro a ha
+    rw [hg a ha]
+  have hex : m.region.containsExact (tab m.ndim fun a => m.centreAxFl R.fl a ((i.getD a 0 : Nat) : Int)) := by
+    refine ⟨by simp [Mesh.ndim], fun a ha => ?_⟩
+    have ha' : a < m.ndim := ha
+    rw [getD_tab _ _ _ _ ha']
+    obtain ⟨h1, h2⟩ := centreAxFl_inside R m a (hpos a ha') (hlohi a ha') _ (hin a ha') (hs a ha')
+    exact ⟨h1.le, h2.le⟩
+  refine ⟨_, hp, hex, ?_⟩
+  unfold point2indexFl
+  rw [if_neg (by simp), containsPtFl_of_exact R.fl _ _ hex]
+  simp only [Bool.not_true, Bool.false_eq_true, if_false]
+  congr 1
+  symm
+  apply eq_tab_of_getD i m.ndim _ 0 hlen
+  intro a ha
+  rw [getD_tab _ _ _ _ ha]
+  exact (roundtrip_fl_axis R m a (hpos a ha) (hlohi a ha) _ (hin a ha) (hs a ha)).symm
+
+/-- **binary64**: the three statements above hold for the round-to-nearest-even binary64
+arithmetic the driver executes (`C15.fl64`, `u = 2^-53`; exponent range not modelled): for every
+mesh with at most `9·10^13` cells per axis the computed index of every point of the region is the
+exact one or - within relative distance `5·2^-53` of an interior face - its neighbour across that face. -/
+theorem point2index_binary64 (m : Mesh) (hm : m.Inv) (p : List Rat) (hp : m.region.containsExact p)
+    (hn : ∀ a, a < m.ndim → m.nAt a ≤ 90000000000000) :
+    ∃ i k, m.point2indexFl C15.fl64 p = .ok i ∧ m.point2index p = .ok k ∧ inRange m.n i = true ∧
+      inRange m.n k = true ∧ inCell m k p ∧
+      ∀ a, a < m.ndim → i.getD a 0 = k.getD a 0 ∨
+        ∃ j : Nat, 0 < j ∧ j < m.nAt a ∧
+          |p.getD a 0 - (m.region.lo a + (j : Rat) * m.cellAt a)|
+            ≤ 5 / 9007199254740992 * (p.getD a 0 - m.region.lo a) ∧
+          (i.getD a 0 = j - 1 ∨ i.getD a 0 = j) ∧ (k.getD a 0 = j - 1 ∨ k.getD a 0 = j) := by
+  have := point2index_fl_band Rounding.binary64 m hm p hp (by
+    intro a ha
+    have h1 : (m.nAt a : Rat) ≤ 90000000000000 := by exact_mod_cast hn a ha
+    rw [binary64_u]
+    linarith)
+  rw [binary64_fl, binary64_u] at this
+  have e : 5 * (1 / 9007199254740992 : Rat) = 5 / 9007199254740992 := by norm_num
+  rw [e] at this
+  exact this
+
+/-- … and the binary64 round trip: exact for every cell of every mesh with
+`|pmin|/cell + n ≤ 7·10^14` on every axis -/
+theorem roundtrip_binary64 (m : Mesh) (hm : m.Inv) (i : List Nat) (hi : inRange m.n i = true)
+    (hs : ∀ a, a < m.ndim → |m.region.lo a| / m.cellAt a + (m.nAt a : Rat) ≤ 700000000000000) :
+    ∃ p, m.index2pointFl C15.fl64 (i.map Int.ofNat) = .ok p ∧ m.region.containsExact p ∧
+      m.point2indexFl C15.fl64 p = .ok i := by
+  have := roundtrip_fl_code Rounding.binary64 m hm i hi (by
+    intro a ha
+    have := hs a ha
+    rw [binary64_u]
+    linarith)
+  rw [binary64_fl] at this
+  exact this
+
+/-! non-vacuity (rounded arithmetic).  `[0, 1]` in three cells: the binary64 number just below 1/3
+(`fl(1/3)`, relative distance `2^-54` from the face) lies in cell 0, but the computed cell size is that same
+number, the computed quotient is exactly 1 and the code returns cell 1 - the adjacent cell across the face,
+as `point2index_fl_band` allows (and `point2index_fl_exact` excludes further away).  On `exMesh` (dyadic)
+rounded and exact results coincide. -/
+def exThird : Mesh :=
+  { region := { pmin := [0], pmax := [1], dims := ["x"], units := ["m"], tol := 1/1000000000000 },
+    n := [3], bc := "", subs := [] }
+
+example : exThird.Inv := mesh_inv_of_invB _ (by decide +kernel)
+example : exThird.point2index [6004799503160661/18014398509481984] = .ok [0] ∧
+    exThird.point2indexFl C15.fl64 [6004799503160661/18014398509481984] = .ok [1] ∧
+    exThird.point2indexFl C15.fl64 [1/4] = .ok [0] ∧ exThird.point2indexFl C15.fl64 [1] = .ok [2] := by decide +kernel
+example : |(6004799503160661/18014398509481984 : Rat) - (exThird.region.lo 0 + (1 : Nat) * exThird.cellAt 0)|
+    ≤ 5 / 9007199254740992 * (6004799503160661/18014398509481984 - exThird.region.lo 0) := by decide +kernel
+example : exMesh.point2indexFl C15.fl64 [7/4, 1/2] = .ok [2, 1] ∧
+    exMesh.index2pointFl C15.fl64 [2, 1] = .ok [3/2, 3/8] ∧
+    exThird.index2pointFl C15.fl64 [1] = .ok [1/2] ∧
+    exThird.point2indexFl C15.fl64 [1/2] = .ok [1] := by decide +kernel
+example : ∀ a, a < exThird.ndim → |exThird.region.lo a| / exThird.cellAt a + (exThird.nAt a : Rat) ≤ 700000000000000 := by
+  intro a ha
+  have : a = 0 := by
+    have : a < 1 := ha
+    omega
+  subst this; decide +kernel
+
+
+/-! ### the tolerance clause in rounded arithmetic -/
+
+/-- **`point in region` in rounded arithmetic against the exact tolerance**: with every operation
+of `Region.__contains__` rounded (edges, `atol = min(edges)·tolerance_factor`, `rtol·|x|`, their sum,
+the difference handed to `np.isclose`), a point inside `(1 − 4u)` times the exact band
+`atol + rtol·|x|` on every axis is accepted, and every accepted point is inside `(1 + 5u)` times it. -/
+theorem contains_fl_sandwich (R : Rounding) (r : Region) (hr : r.Inv) (ht : 0 ≤ r.tol) (p : List Rat) :
+    (TolInsideS r (1 - 4 * R.u) p → r.containsPtFl R.fl p = true) ∧
+    (r.containsPtFl R.fl p = true → TolInsideS r (1 + 5 * R.u) p) := by
+  unfold Region.containsPtFl TolInsideS
+  simp only [Bool.and_eq_true, decide_eq_true_eq, allLt_iff]
+  constructor
+  · rintro ⟨h1, h2⟩
+    exact ⟨h1, fun a ha => (containsAxFl_sandwich R r hr ht a _).1 (h2 a ha)⟩
+  · rintro ⟨h1, h2⟩
+    exact ⟨h1, fun a ha => (containsAxFl_sandwich R r hr ht a _).2 (h2 a ha)⟩
+
+/-- **Points outside by more than `(1 + 5u)` times the tolerance are refused** by the rounded `point2index` -/
+theorem point2index_fl_rejects (R : Rounding) (m : Mesh) (hm : m.Inv) (ht : 0 ≤ m.region.tol) (p : List Rat)
+    (h : ¬ TolInsideS m.region (1 + 5 * R.u) p) : m.point2indexFl R.fl p = .error .value := by
+  unfold point2indexFl
+  split
+  · rfl
+  · have : m.region.containsPtFl R.fl p = false := by
+      by_contra hc
+      exact h ((contains_fl_sandwich R m.region hm.1 ht p).2 (by simpa using hc))
+    rw [this]; rfl
+
+/-- **The tolerance clause with every operation rounded** (list level): a point inside the region
+up to `(1 − 4u)` times the comparison tolerance is accepted by the rounded `point2index` (and by
+the exact one) with an in-range index; on every axis that index is the exact one - in particular
+0 below `pmin` and `n − 1` above `pmax` - or, for a coordinate within `5u·(x − pmin)` of an interior
+face `j`, one of the two cells `j − 1`, `j` sharing the face.  Requires `10u·n < 1`. -/
+theorem point2index_fl_tol (R : Rounding) (m : Mesh) (hm : m.Inv) (ht : 0 ≤ m.region.tol) (p : List Rat)
+    (hp : TolInsideS m.region (1 - 4 * R.u) p)
+    (hs : ∀ a, a < m.ndim → 10 * R.u * (m.nAt a : Rat) < 1) :
+    ∃ i k, m.point2indexFl R.fl p = .ok i ∧ m.point2index p = .ok k ∧ inRange m.n i = true ∧
+      inRange m.n k = true ∧
+      ∀ a, a < m.ndim → i.getD a 0 = k.getD a 0 ∨
+        (m.region.lo a ≤ p.getD a 0 ∧ p.getD a 0 ≤ m.region.hi a ∧
+         ∃ j : Nat, 0 < j ∧ j < m.nAt a ∧
+          |p.getD a 0 - (m.region.lo a + (j : Rat) * m.cellAt a)| ≤ 5 * R.u * (p.getD a 0 - m.region.lo a) ∧
+          (i.getD a 0 = j - 1 ∨ i.getD a 0 = j) ∧ (k.getD a 0 = j - 1 ∨ k.getD a 0 = j)) := by
+  have hu := R.u_nonneg
+  have hl : p.length = m.ndim := hp.1
+  have hin : TolInside m.region p := by
+    refine ⟨hp.1, fun a ha => ?_⟩
+    have hb := band_nonneg m.region hm.1 ht (p.getD a 0)
+    have := hp.2 a ha
+    have : (1 - 4 * R.u) * band m.region (p.getD a 0) ≤ band m.region (p.getD a 0) := by nlinarith
+    constructor <;> linarith
+  obtain ⟨k, hk1, hk2, _, _, _⟩ := point2index_tol m hm ht p hin
+  have hkeq := ((point2index_ok_iff m hm ht p k).mp hk1).2
+  refine ⟨tab m.ndim fun a => m.indexAxFl R.fl a (p.getD a 0), k, ?_, hk1, ?_, hk2, ?_⟩
+  · unfold point2indexFl
+    rw [if_neg (not_not.mpr hl), (contains_fl_sandwich R m.region hm.1 ht p).1 hp]
+    simp
+  · apply inRange_of_getD
+    · rw [tab_length, hm.2.1]; rfl
+    · intro a ha
+      have ha' : a < m.ndim := by rw [hm.2.1] at ha; exact ha
+      rw [getD_tab _ _ _ _ ha']
+      exact indexAxFl_lt m a R.fl (hm.2.2 a ha') _
+  · intro a ha
+    have hn := hm.2.2 a ha
+    have hr := hm.1.2.2.2.2.2 a ha
+    have hc := cell_pos m a hn hr
+    have hN : (0 : Rat) < (m.nAt a : Rat) := by exact_mod_cast hn
+    rw [getD_tab _ _ _ _ ha, hkeq, getD_tab _ _ _ _ ha]
+    by_cases h1 : p.getD a 0 < m.region.lo a
+    · left
+      rw [indexAxFl_below R m a hn hr _ h1, band_clipped_to_first m a _ hn hr h1]
+    · by_cases h2 : m.region.hi a < p.getD a 0
+      · left
+        rw [indexAxFl_above R m a hn hr _ h2 (by have := hs a ha; nlinarith)]
+        -- exact index above the edge
+        rw [indexAx_clamp m a _ hn hr]
+        have e : clampAx m.region a (p.getD a 0) = m.region.hi a := by
+          unfold clampAx; rw [min_eq_left h2.le, max_eq_right hr.le]
+        rw [e]
+        obtain ⟨_, _, _, f1, f2, f3⟩ := indexAx_facts m a hn hr (m.region.hi a) hr.le (le_refl _)
+        have hq : (m.region.hi a - m.region.lo a) / m.cellAt a = (m.nAt a : Rat) := by
+          have hcov := cells_cover_edges m a hn
+          unfold Region.edge at hcov
+          rw [← hcov]; field_simp
+        rw [hq] at f2 f3
+        rcases f3 with f3 | f3
+        · have : (m.nAt a : Rat) < ((m.indexAx a (m.region.hi a) + 1 : Nat) : Rat) := by push_cast; exact f3
+          have : m.nAt a < m.indexAx a (m.region.hi a) + 1 := by exact_mod_cast this
+          omega
+        · exact f3.symm
+      · have hlo := not_lt.mp h1
+        have hhi := not_lt.mp h2
+        rcases indexAxFl_band R m a hn hr _ hlo hhi (hs a ha) with h | ⟨j, j1, j2, j3, j4, j5⟩
+        · exact Or.inl h
+        · refine Or.inr ⟨hlo, hhi, j, j1, j2, ?_, j4, j5⟩
+          have e : (p.getD a 0 - m.region.lo a) / m.cellAt a - (j : Rat)
+              = (p.getD a 0 - (m.region.lo a + (j : Rat) * m.cellAt a)) / m.cellAt a := by
+            field_simp; ring
+          rw [e, abs_div, abs_of_pos hc, ← mul_div_assoc, div_le_div_iff_of_pos_right hc] at j3
+          exact j3
+
+/-! ### one lattice: cell size of a mesh by cell, monotonicity, vertices as cell faces -/
+
+/-- a mesh requested by cell size has that cell size: exactly when the edges are exact multiples,
+and in general within `(min(cell)/1000)/n` on every axis -/
+theorem by_cell_size (r : Region) (hr : r.Inv) (cell : List Rat) (bc : String) (m : Mesh)
+    (h : Mesh.mkCell? r cell bc = .ok m) (a : Nat) (ha : a < r.ndim) :
+    |m.cellAt a - cell.getD a 0| ≤ listMin cell / 1000 / (m.nAt a : Rat) ∧
+    (r.edge a = (m.nAt a : Rat) * cell.getD a 0 → m.cellAt a = cell.getD a 0) := by
+  obtain ⟨hreg, hn1, hnear⟩ := by_cell_ok_near r hr cell bc m h a ha
+  have hN : (0 : Rat) < (m.nAt a : Rat) := by exact_mod_cast hn1
+  have hcell : m.cellAt a = r.edge a / (m.nAt a : Rat) := by unfold cellAt; rw [hreg]
+  constructor
+  · have e : m.cellAt a - cell.getD a 0 = (r.edge a - (m.nAt a : Rat) * cell.getD a 0) / (m.nAt a : Rat) := by
+      rw [hcell]; field_simp
+    rw [e, abs_div, abs_of_pos hN, div_le_div_iff_of_pos_right hN]
+    exact hnear
+  · intro he
+    rw [hcell, he]; field_simp
+
+/-- `point2index` is monotone along every axis: a larger coordinate never gets a smaller index -/
+theorem index_monotone (m : Mesh) (a : Nat) (hn : 0 < m.nAt a) (hr : m.region.lo a < m.region.hi a)
+    (x y : Rat) (hxy : x ≤ y) : m.indexAx a x ≤ m.indexAx a y := by
+  have hc := cell_pos m a hn hr
+  have hq : (x - m.region.lo a) / m.cellAt a ≤ (y - m.region.lo a) / m.cellAt a := by
+    rw [div_le_div_iff_of_pos_right hc]; linarith
+  have hf : ((x - m.region.lo a) / m.cellAt a).floor ≤ ((y - m.region.lo a) / m.cellAt a).floor := by
+    apply rat_le_floor
+    exact le_trans (rat_floor_le _) hq
+  unfold indexAx clipInt
+  split <;> split <;> (try split) <;> (try split) <;> omega
+
+/-- **vertices are the cell faces that `point2index` uses**: for a coordinate of the half-open edge
+`[pmin, pmax)`, the index is `j` exactly when the coordinate lies between the `j`-th and the
+`(j+1)`-th entry of `Mesh.vertices` (lower inclusive, upper exclusive). -/
+theorem index_iff_vertices (m : Mesh) (a : Nat) (ha : a < m.ndim) (hn : 0 < m.nAt a)
+    (hr : m.region.lo a < m.region.hi a) (x : Rat) (hlo : m.region.lo a ≤ x) (hhi : x < m.region.hi a)
+    (j : Nat) (hj : j < m.nAt a) :
+    m.indexAx a x = j ↔
+      (m.vertices.getD a []).getD j 0 ≤ x ∧ x < (m.vertices.getD a []).getD (j + 1) 0 := by
+  rw [vertices_eq_faces m a ha hn j (by omega), vertices_eq_faces m a ha hn (j + 1) (by omega)]
+  obtain ⟨h1, h2, h3⟩ := index_contains_axis m a x hn hr hlo hhi.le
+  have h3' : x < m.region.lo a + ((m.indexAx a x : Rat) + 1) * m.cellAt a := by
+    rcases h3 with h | ⟨_, h⟩
+    · exact h
+    · exact absurd h (ne_of_lt hhi)
+  constructor
+  · intro e
+    rw [← e]; push_cast
+    exact ⟨h2, h3'⟩
+  · rintro ⟨l, u⟩
+    push_cast at u
+    exact cell_unique (m.region.lo a) (m.cellAt a) x (cell_pos m a hn hr) _ _ ⟨h2, h3'⟩ ⟨l, u⟩
+
+/-! non-vacuity (tolerance in rounded arithmetic, binary64 on `exMesh`): 10⁻¹³ below `pmin` is inside
+`(1 − 4u)` times the band and accepted, first cell; 10⁻¹¹ below is outside `(1 + 5u)` times the band and refused -/
+example : exMesh.point2indexFl C15.fl64 [-1 - 1/10000000000000, 3/8] = .ok [0, 1] ∧
+    exMesh.point2indexFl C15.fl64 [-1 - 1/100000000000, 3/8] = .error .value ∧
+    exMesh.point2indexFl C15.fl64 [2 + 1/10000000000000, 1/2] = .ok [2, 1] := by decide +kernel
+example : TolInsideS exMesh.region (1 - 4 * Rounding.binary64.u) [-1 - 1/10000000000000, 3/8] := by
+  refine ⟨rfl, ?_⟩
+  intro a ha
+  have : a = 0 ∨ a = 1 := by
+    have : a < 2 := ha
+    omega
+  rcases this with rfl | rfl <;> (unfold band; rw [binary64_u]; constructor <;> decide +kernel)
+example : ¬ TolInsideS exMesh.region (1 + 5 * Rounding.binary64.u) [-1 - 1/100000000000, 3/8] := by
+  rintro ⟨_, h⟩
+  have := (h 0 (by decide)).1
+  unfold band at this
+  rw [binary64_u] at this
+  revert this
+  decide +kernel
+example : exMesh.vertices = [[-1, 0, 1, 2], [0, 1/4, 1/2]] ∧ exMesh.indexAx 0 (3/4) = 1 ∧
+    exMesh.indexAx 0 1 = 2 ∧ exMesh.cells = [[-1/2, 1/2, 3/2], [1/8, 3/8]] := by decide +kernel
+
+/-! ### the per-axis lists in rounded arithmetic -/
+
+/-- **`Mesh.vertices` as computed** (`np.linspace(pmin, pmax, n + 1)`: `fl(fl(j·fl(fl(pmax − pmin)/n)) + pmin)`,
+last entry `pmax`): entry `j` is within `10u·M` of the face `pmin + j·cell`, `M ≥ |pmin|, |pmax|`;
+first and last entry are `pmin` and `pmax` up to that bound, the last one exactly. -/
+theorem vertices_fl_err (R : Rounding) (m : Mesh) (a : Nat) (ha : a < m.ndim) (hn : 0 < m.nAt a)
+    (M : Rat) (hlo : |m.region.lo a| ≤ M) (hhi : |m.region.hi a| ≤ M) (j : Nat) (hj : j ≤ m.nAt a) :
+    |((m.verticesFl R.fl).getD a []).getD j 0 - (m.region.lo a + (j : Rat) * m.cellAt a)| ≤ 10 * R.u * M ∧
+    ((m.verticesFl R.fl).getD a []).getD (m.nAt a) 0 = m.region.hi a := by
+  have hM : 0 ≤ M := le_trans (abs_nonneg _) hlo
+  have hu := R.u_nonneg
+  have hcov := cells_cover_edges m a hn
+  unfold Region.edge at hcov
+  unfold verticesFl
+  rw [getD_tab _ _ _ _ ha]
+  unfold linspaceFl
+  have h1 : ¬ (m.nAt a + 1 = 1) := by omega
+  rw [if_neg h1, getD_tab _ _ _ _ (by omega), getD_tab _ _ _ _ (by omega)]
+  refine ⟨?_, by simp⟩
+  by_cases hl : j + 1 = m.nAt a + 1
+  · rw [if_pos hl]
+    have : j = m.nAt a := by omega
+    rw [this]
+    have : m.region.hi a - (m.region.lo a + (m.nAt a : Rat) * m.cellAt a) = 0 := by linarith
+    rw [this, abs_zero]; positivity
+  · rw [if_neg hl]
+    have e : ((m.nAt a + 1 : Nat) : Rat) - 1 = (m.nAt a : Rat) := by push_cast; ring
+    rw [e]
+    have := linspace_entry_err R (m.region.lo a) (m.region.hi a) M (m.nAt a) j hn hj hlo hhi
+    unfold cellAt Region.edge
+    exact this
+
+/-- **`Mesh.cells` as computed** (`np.linspace(fl(pmin + fl(cell/2)), fl(pmax − fl(cell/2)), n)` with the
+rounded cell size): entry `j` is within `20u·M` of the centre `pmin + (j + ½)·cell`, `M ≥ |pmin|, |pmax|`,
+for every `n ≥ 1` (this is what the `2^-40` comparator of the correspondence check rests on). -/
+theorem cells_fl_err (R : Rounding) (m : Mesh) (a : Nat) (ha : a < m.ndim) (hn : 0 < m.nAt a)
+    (hr : m.region.lo a < m.region.hi a)
+    (M : Rat) (hlo : |m.region.lo a| ≤ M) (hhi : |m.region.hi a| ≤ M) (j : Nat) (hj : j < m.nAt a) :
+    |((m.cellsFl R.fl).getD a []).getD j 0 - (m.region.lo a + ((j : Rat) + 1/2) * m.cellAt a)| ≤ 20 * R.u * M := by
+  have hM : 0 ≤ M := le_trans (abs_nonneg _) hlo
+  have hu := R.u_nonneg
+  have hu16 := R.u_small
+  have huM : 0 ≤ R.u * M := mul_nonneg hu hM
+  have hc := cell_pos m a hn hr
+  have hcov := cells_cover_edges m a hn
+  unfold Region.edge at hcov
+  have hN : (1 : Rat) ≤ (m.nAt a : Rat) := by exact_mod_cast hn
+  have hcc := cellAtFl_err R m a hn hr
+  -- cell / 2 ≤ M
+  have hcM : m.cellAt a / 2 ≤ M := by
+    have h1 : m.cellAt a ≤ (m.nAt a : Rat) * m.cellAt a := by nlinarith
+    have h2 := le_abs_self (m.region.hi a)
+    have h3 := neg_abs_le (m.region.lo a)
+    linarith
+  set c := m.cellAt a with hcdef
+  set c' := m.cellAtFl R.fl a with hc'def
+  set s' := R.fl (m.region.lo a + R.fl (c' / 2)) with hs'
+  set e' := R.fl (m.region.hi a - R.fl (c' / 2)) with he'
+  have es : |s' - (m.region.lo a + c / 2)| ≤ 6 * R.u * M := by
+    have := half_cell_err R (m.region.lo a) c c' M 1 (Or.inl rfl) hc hlo hcM hcc
+    simpa using this
+  have ee : |e' - (m.region.hi a - c / 2)| ≤ 6 * R.u * M := by
+    have := half_cell_err R (m.region.hi a) c c' M (-1) (Or.inr rfl) hc hhi hcM hcc
+    have e1 : m.region.hi a + -1 * R.fl (c' / 2) = m.region.hi a - R.fl (c' / 2) := by ring
+    have e2 : m.region.hi a + -1 * (c / 2) = m.region.hi a - c / 2 := by ring
+    rw [e1, e2] at this
+    exact this
+  -- exact end points lie between the corners
+  have hstart : |m.region.lo a + c / 2| ≤ M := by
+    rw [abs_le]
+    have h2 := le_abs_self (m.region.hi a)
+    have h3 := neg_abs_le (m.region.lo a)
+    have : c / 2 ≤ (m.nAt a : Rat) * c := by nlinarith
+    constructor <;> linarith
+  have hstop : |m.region.hi a - c / 2| ≤ M := by
+    rw [abs_le]
+    have h2 := le_abs_self (m.region.hi a)
+    have h3 := neg_abs_le (m.region.lo a)
+    have : c / 2 ≤ (m.nAt a : Rat) * c := by nlinarith
+    constructor <;> linarith
+  unfold cellsFl
+  rw [getD_tab _ _ _ _ ha]
+  rw [← hc'def, ← hs', ← he']
+  unfold linspaceFl
+  by_cases h1 : m.nAt a = 1
+  · rw [if_pos h1]
+    have hj0 : j = 0 := by omega
+    subst hj0
+    simp only [List.getD_cons_zero]
+    have e : m.region.lo a + ((0 : Nat) : Rat) * c + 1 / 2 * c = m.region.lo a + c / 2 := by push_cast; ring
+    have e2 : m.region.lo a + (((0 : Nat) : Rat) + 1 / 2) * c = m.region.lo a + c / 2 := by push_cast; ring
+    rw [e2]
+    linarith
+  · rw [if_neg h1, getD_tab _ _ _ _ hj]
+    by_cases hl : j + 1 = m.nAt a
+    · rw [if_pos hl]
+      have e : m.region.lo a + ((j : Rat) + 1 / 2) * c = m.region.hi a - c / 2 := by
+        have : (j : Rat) + 1 = (m.nAt a : Rat) := by exact_mod_cast hl
+        have : (j : Rat) = (m.nAt a : Rat) - 1 := by linarith
+        rw [this]; linarith
+      rw [e]; linarith
+    · rw [if_neg hl]
+      -- N = n - 1 ≥ 1, j ≤ N
+      have hN1 : 0 < m.nAt a - 1 := by omega
+      have eN : (m.nAt a : Rat) - 1 = ((m.nAt a - 1 : Nat) : Rat) := by
+        push_cast [Nat.cast_sub (by omega : 1 ≤ m.nAt a)]; ring
+      rw [eN]
+      have hs'M : |s'| ≤ 11 / 8 * M := by
+        have t := abs_add_le (s' - (m.region.lo a + c / 2)) (m.region.lo a + c / 2)
+        have e : s' - (m.region.lo a + c / 2) + (m.region.lo a + c / 2) = s' := by ring
+        rw [e] at t
+        nlinarith
+      have he'M : |e'| ≤ 11 / 8 * M := by
+        have t := abs_add_le (e' - (m.region.hi a - c / 2)) (m.region.hi a - c / 2)
+        have e : e' - (m.region.hi a - c / 2) + (m.region.hi a - c / 2) = e' := by ring
+        rw [e] at t
+        nlinarith
+      have k1 := linspace_entry_err R s' e' (11 / 8 * M) (m.nAt a - 1) j hN1 (by omega) hs'M he'M
+      -- interpolation between the perturbed end points
+      have hNq : (0 : Rat) < ((m.nAt a - 1 : Nat) : Rat) := by exact_mod_cast hN1
+      have hjq : (0 : Rat) ≤ (j : Rat) := Nat.cast_nonneg j
+      have hjN : (j : Rat) ≤ ((m.nAt a - 1 : Nat) : Rat) := by exact_mod_cast (by omega : j ≤ m.nAt a - 1)
+      have k2 := interp_perturb (m.region.lo a + c / 2) (m.region.hi a - c / 2) s' e'
+        ((j : Rat) / ((m.nAt a - 1 : Nat) : Rat)) (6 * R.u * M) (div_nonneg hjq hNq.le)
+        (by rw [div_le_one hNq]; exact hjN) es ee
+      have e3 : m.region.lo a + c / 2 + (j : Rat) / ((m.nAt a - 1 : Nat) : Rat) * (m.region.hi a - c / 2 - (m.region.lo a + c / 2))
+          = m.region.lo a + ((j : Rat) + 1 / 2) * c := by
+        have : m.region.hi a - c / 2 - (m.region.lo a + c / 2) = ((m.nAt a - 1 : Nat) : Rat) * c := by
+          rw [← eN]; linarith
+        rw [this]; field_simp; ring
+      have e4 : s' + (j : Rat) * ((e' - s') / ((m.nAt a - 1 : Nat) : Rat))
+          = s' + (j : Rat) / ((m.nAt a - 1 : Nat) : Rat) * (e' - s') := by field_simp
+      rw [e3] at k2
+      rw [e4] at k1
+      set y := R.fl (R.fl ((j : Rat) * R.fl (R.fl (e' - s') / ((m.nAt a - 1 : Nat) : Rat))) + s') with hy
+      have e5 : y - (m.region.lo a + ((j : Rat) + 1 / 2) * c)
+          = (y - (s' + (j : Rat) / ((m.nAt a - 1 : Nat) : Rat) * (e' - s')))
+            + ((s' + (j : Rat) / ((m.nAt a - 1 : Nat) : Rat) * (e' - s')) - (m.region.lo a + ((j : Rat) + 1 / 2) * c)) := by ring
+      rw [e5]
+      have t := abs_add_le (y - (s' + (j : Rat) / ((m.nAt a - 1 : Nat) : Rat) * (e' - s')))
+        ((s' + (j : Rat) / ((m.nAt a - 1 : Nat) : Rat) * (e' - s')) - (m.region.lo a + ((j : Rat) + 1 / 2) * c))
+      linarith
+
+/-! non-vacuity (per-axis lists in binary64): `[0, 1]` in three cells - the computed centres and vertices are not
+the exact ones (1/6, 5/6, 1/3, 2/3 are no binary64 numbers) but lie within the proved bounds (`M = 1`) -/
+example : exThird.cells = [[1/6, 1/2, 5/6]] ∧
+    exThird.cellsFl C15.fl64 = [[6004799503160661/36028797018963968, 1/2, 7505999378950827/9007199254740992]] ∧
+    exThird.verticesFl C15.fl64 = [[0, 6004799503160661/18014398509481984, 6004799503160661/9007199254740992, 1]] := by
+  decide +kernel
+example : |(7505999378950827/9007199254740992 : Rat) - 5/6| ≤ 20 * Rounding.binary64.u * 1 ∧
+    |(6004799503160661/18014398509481984 : Rat) - 1/3| ≤ 10 * Rounding.binary64.u * 1 ∧
+    (7505999378950827/9007199254740992 : Rat) ≠ 5/6 := by
+  rw [binary64_u]; decide +kernel
+/-- mixed-order corners, periodic boundary condition given in upper case: accepted by both constructors, stored
+lower-case (the `bcOk` hypothesis of `by_cell_ok_iff` / `mesh_mk_ok_iff` on a non-trivial input) -/
+example : (Mesh.mkCell? exMesh.region [1, 1/4] "YX").toOption.map (fun m => (m.n, m.bc)) = some ([3, 2], "yx") ∧
+    (Mesh.mkN? exMesh.region [3, 2] "X").toOption.map (·.bc) = some "x" ∧
+    (Mesh.mkN? exMesh.region [3, 2] "xz").toOption = none := by decide +kernel
+
+/-- **The computed list of centres describes the same lattice as the computed `point2index`**: with
+every operation rounded (cell size, `np.linspace` of `Mesh.cells`, quotient, floor, clip), entry `j`
+of the list of centres of axis `a` lies in the closed edge and is mapped back to `j`, for every
+`j < n`, provided `50u·(M/cell + n) < 1` with `M ≥ |pmin|, |pmax|`. -/
+theorem cells_fl_roundtrip (R : Rounding) (m : Mesh) (a : Nat) (ha : a < m.ndim) (hn : 0 < m.nAt a)
+    (hr : m.region.lo a < m.region.hi a)
+    (M : Rat) (hlo : |m.region.lo a| ≤ M) (hhi : |m.region.hi a| ≤ M)
+    (hs : 50 * R.u * (M / m.cellAt a + (m.nAt a : Rat)) < 1) (j : Nat) (hj : j < m.nAt a) :
+    m.region.lo a ≤ ((m.cellsFl R.fl).getD a []).getD j 0 ∧
+    ((m.cellsFl R.fl).getD a []).getD j 0 ≤ m.region.hi a ∧
+    m.indexAxFl R.fl a (((m.cellsFl R.fl).getD a []).getD j 0) = j := by
+  have hu := R.u_nonneg
+  have hM : 0 ≤ M := le_trans (abs_nonneg _) hlo
+  have hc := cell_pos m a hn hr
+  have hcov := cells_cover_edges m a hn
+  unfold Region.edge at hcov
+  have herr := cells_fl_err R m a ha hn hr M hlo hhi j hj
+  set x := ((m.cellsFl R.fl).getD a []).getD j 0 with hx
+  set c := m.cellAt a with hcdef
+  have hN : (1 : Rat) ≤ (m.nAt a : Rat) := by exact_mod_cast hn
+  have hjq : (0 : Rat) ≤ (j : Rat) := Nat.cast_nonneg j
+  have hjn : (j : Rat) + 1 ≤ (m.nAt a : Rat) := by exact_mod_cast (by omega : j + 1 ≤ m.nAt a)
+  -- E = 20 u M < (2/5 - 20 u n) c
+  have hE : 20 * R.u * M + 20 * R.u * ((m.nAt a : Rat) * c) < 2 / 5 * c := by
+    have e : (M / c + (m.nAt a : Rat)) * c = M + (m.nAt a : Rat) * c := by field_simp
+    have := mul_lt_mul_of_pos_right hs hc
+    have e2 : 50 * R.u * (M / c + (m.nAt a : Rat)) * c = 50 * (R.u * M) + 50 * (R.u * ((m.nAt a : Rat) * c)) := by
+      rw [mul_assoc (50 * R.u), e]; ring
+    linarith
+  have hunc : 0 ≤ R.u * ((m.nAt a : Rat) * c) := by positivity
+  rw [abs_le] at herr
+  have hxlo : m.region.lo a ≤ x := by nlinarith
+  have hxhi : x ≤ m.region.hi a := by nlinarith
+  refine ⟨hxlo, hxhi, ?_⟩
+  -- the quotient in cell units
+  set q := (x - m.region.lo a) / c with hq
+  have hq1 : (j : Rat) + 1 / 10 + 20 * R.u * (m.nAt a : Rat) < q := by
+    rw [hq, lt_div_iff₀ hc]; nlinarith
+  have hq2 : q < (j : Rat) + 9 / 10 - 20 * R.u * (m.nAt a : Rat) := by
+    rw [hq, div_lt_iff₀ hc]; nlinarith
+  have hun : 0 ≤ R.u * (m.nAt a : Rat) := by positivity
+  have hqn : q ≤ (m.nAt a : Rat) := by linarith
+  have hq0 : 0 ≤ q := by linarith
+  -- exact index is j
+  have hex : m.indexAx a x = j := by
+    unfold indexAx
+    rw [← hcdef, ← hq]
+    have hf : q.floor = (j : Int) := by
+      apply rat_floor_eq
+      · push_cast; linarith
+      · push_cast; linarith
+    rw [hf]
+    unfold clipInt
+    have h1 : ¬ ((j : Int) < 0) := by omega
+    have h2 : ¬ ((m.nAt a : Int) - 1 < (j : Int)) := by omega
+    simp [h1, h2]
+  have h5n : 5 * R.u * (m.nAt a : Rat) < 1 := by
+    have : 0 ≤ R.u * M := mul_nonneg hu hM
+    have : 0 < c := hc
+    nlinarith
+  rw [← hex]
+  apply indexAxFl_eq R m a hn hr x hxlo hxhi h5n
+  intro i hi0 hin
+  rw [← hcdef, ← hq]
+  have h5q : 5 * R.u * q ≤ 5 * R.u * (m.nAt a : Rat) := mul_le_mul_of_nonneg_left hqn (by positivity)
+  by_cases hij : i ≤ j
+  · have : (i : Rat) ≤ (j : Rat) := by exact_mod_cast hij
+    rw [abs_of_pos (by linarith)]
+    linarith
+  · have : (j : Rat) + 1 ≤ (i : Rat) := by exact_mod_cast (by omega : j + 1 ≤ i)
+    rw [abs_of_neg (by linarith)]
+    linarith
+
+/-- … e.g. in binary64 on `[0, 1]` in three cells: the computed centres go back to 0, 1, 2, and the hypothesis holds -/
+example : (((exThird.cellsFl C15.fl64).getD 0 []).map fun x => exThird.indexAxFl C15.fl64 0 x) = [0, 1, 2] ∧
+    50 * Rounding.binary64.u * (1 / exThird.cellAt 0 + (exThird.nAt 0 : Rat)) < 1 := by
+  rw [binary64_u]; decide +kernel
+
+/-! ### cell volume and region volume in rounded arithmetic, any number of dimensions -/
+
+/-- **`Mesh.dV` as computed** (`np.prod` of the `d` rounded cell sizes, `d − 1` rounded
+multiplications) lies within the factors `(1 ∓ g)·((1 ∓ g)(1 ∓ u))^(d−1)`, `g = 2u + u²`, of the
+exact cell volume - a relative error of about `(3d − 1)·u`, for every number of dimensions `d`. -/
+theorem dV_fl_err (R : Rounding) (m : Mesh) (hm : m.Inv) :
+    (1 - (2 * R.u + R.u * R.u)) * ((1 - (2 * R.u + R.u * R.u)) * (1 - R.u)) ^ (m.ndim - 1) * m.dV ≤ m.dVFl R.fl ∧
+    m.dVFl R.fl ≤ (1 + (2 * R.u + R.u * R.u)) * ((1 + (2 * R.u + R.u * R.u)) * (1 + R.u)) ^ (m.ndim - 1) * m.dV := by
+  have hu := R.u_nonneg
+  have hu16 := R.u_small
+  have hg1 : 2 * R.u + R.u * R.u ≤ 1 := by nlinarith
+  have hnear : Near (2 * R.u + R.u * R.u) (tab m.ndim (m.cellAtFl R.fl)) (tab m.ndim m.cellAt) := by
+    apply near_tab
+    intro a ha
+    have hn := hm.2.2 a ha
+    have hr := hm.1.2.2.2.2.2 a ha
+    have := cellAtFl_err R m a hn hr
+    rw [abs_le] at this
+    exact ⟨cell_pos m a hn hr, by linarith, by linarith⟩
+  have hne : tab m.ndim m.cellAt ≠ [] := by
+    intro e
+    have := congrArg List.length e
+    simp at this
+    have := hm.1.1
+    unfold Mesh.ndim Region.ndim at *
+    omega
+  have := prodFl_bounds R _ (by positivity) hg1 _ _ hnear hne
+  simp only [tab_length] at this
+  exact this
+
+/-- **`Region.volume` of a float-cornered region as computed** (`np.prod` of the `d` rounded edge
+lengths): within the factors `(1 ∓ u)^(2d−1)` of the exact volume, for every number of dimensions. -/
+theorem volume_fl_err (R : Rounding) (r : Region) (hr : r.Inv) :
+    (1 - R.u) * ((1 - R.u) * (1 - R.u)) ^ (r.ndim - 1) * r.volume ≤ r.volumeFl R.fl ∧
+    r.volumeFl R.fl ≤ (1 + R.u) * ((1 + R.u) * (1 + R.u)) ^ (r.ndim - 1) * r.volume := by
+  have hu := R.u_nonneg
+  have hu1 : R.u ≤ 1 := le_trans R.u_small (by norm_num)
+  have hnear : Near R.u (tab r.ndim fun a => R.fl (r.hi a - r.lo a)) (tab r.ndim r.edge) := by
+    apply near_tab
+    intro a ha
+    have h := hr.2.2.2.2.2 a ha
+    have hpos : 0 < r.hi a - r.lo a := by linarith
+    obtain ⟨b1, b2⟩ := fl_bounds_nonneg R _ hpos.le
+    exact ⟨hpos, b1, b2⟩
+  have hne : tab r.ndim r.edge ≠ [] := by
+    intro e
+    have := congrArg List.length e
+    simp at this
+    have := hr.1
+    unfold Region.ndim at *
+    omega
+  have := prodFl_bounds R _ hu hu1 _ _ hnear hne
+  simp only [tab_length] at this
+  exact this
+
+/-- **The cells fill the volume, in rounded arithmetic**: `len(mesh)·dV_fl` and `volume_fl` are both
+within explicit factors of the exact volume `len·dV = volume` (`volume_tiles`), for every `d`. -/
+theorem volume_tiles_fl (R : Rounding) (m : Mesh) (hm : m.Inv) :
+    (1 - (2 * R.u + R.u * R.u)) * ((1 - (2 * R.u + R.u * R.u)) * (1 - R.u)) ^ (m.ndim - 1) * m.region.volume
+        ≤ (m.len : Rat) * m.dVFl R.fl ∧
+    (m.len : Rat) * m.dVFl R.fl
+        ≤ (1 + (2 * R.u + R.u * R.u)) * ((1 + (2 * R.u + R.u * R.u)) * (1 + R.u)) ^ (m.ndim - 1) * m.region.volume := by
+  obtain ⟨h1, h2⟩ := dV_fl_err R m hm
+  have hv := volume_tiles m hm
+  have hL : (0 : Rat) ≤ (m.len : Rat) := Nat.cast_nonneg _
+  rw [← hv]
+  constructor
+  · have := mul_le_mul_of_nonneg_left h1 hL
+    linarith [this]
+  · have := mul_le_mul_of_nonneg_left h2 hL
+    linarith [this]
+
+/-- binary64, up to four dimensions: computed cell volume within `12·2^-53` relative of the exact one -/
+theorem dV_binary64 (m : Mesh) (hm : m.Inv) (hd : m.ndim ≤ 4) :
+    |m.dVFl C15.fl64 - m.dV| ≤ 12 / 9007199254740992 * m.dV := by
+  obtain ⟨h1, h2⟩ := dV_fl_err Rounding.binary64 m hm
+  rw [binary64_fl, binary64_u] at h1 h2
+  have hpos := (dV_pos m hm).1
+  have hd1 : 1 ≤ m.ndim := hm.1.1
+  have : m.ndim - 1 = 0 ∨ m.ndim - 1 = 1 ∨ m.ndim - 1 = 2 ∨ m.ndim - 1 = 3 := by omega
+  rw [abs_le]
+  rcases this with e | e | e | e <;> rw [e] at h1 h2 <;> norm_num at h1 h2 <;> constructor <;> nlinarith
+
+/-- non-vacuity: on `[0, 1]` in three cells the computed cell volume is `fl(1/3) ≠ 1/3`; on the 4-d mesh
+`exMesh4` (dyadic) computed and exact cell volume and region volume coincide -/
+example : exThird.dVFl C15.fl64 = 6004799503160661/18014398509481984 ∧ exThird.dV = 1/3 ∧
+    exMesh4.dVFl C15.fl64 = exMesh4.dV ∧ exMesh4.region.volumeFl C15.fl64 = exMesh4.region.volume ∧
+    (exMesh4.len : Rat) * exMesh4.dV = 3 := by decide +kernel
 
 end DFV.C01
